@@ -288,6 +288,13 @@ pub fn take_panic() -> String {
         .unwrap_or_else(|| "<unknown panic>".to_string())
 }
 
+/// Did this captured panic (`message @ file:line`) originate in the sources of the system under test
+/// (llfree / llfree-eval), as opposed to the harness or the standard library called by the harness?
+pub fn panic_in_sut(p: &str) -> bool {
+    let loc = p.rsplit(" @ ").next().unwrap_or("");
+    (loc.contains("/core/src/") || loc.contains("/eval/src/")) && !loc.contains("/verif/harness")
+}
+
 /// Run `f`, converting a panic into `Err(message @ file:line)`.
 pub fn catch<R>(f: impl FnOnce() -> R) -> Result<R, String> {
     match std::panic::catch_unwind(std::panic::AssertUnwindSafe(f)) {
